@@ -95,7 +95,7 @@ Section Plain.
     | [] => []
     | _ =>
       match from_bom boms content with
-      | _ :: _ as cs => cs
+      | (_ :: _) as cs => cs
       | [] =>
         let c' := trim_partial repaired content in
         if existsb (fun c => 128 <=? c) c' && utf8_valid c' then b "utf-8"
